@@ -469,6 +469,42 @@ def F29():
     o = r["outputs_desc"][idx]
     return o["is_change"] is True, "script OP_2 A B C X OP_3 CHECKMULTISIG (4 keys) is described with is_change=%s" % o["is_change"]
 
+def F30():
+    """the library cannot parse the P2SH-P2WPKH PSBT it serialised after update() (test vector of test_psbt.test_p2sh_p2wpkh)"""
+    import re
+    from buidl.psbt import PSBT
+    root = os.environ.get("VERIF_REPO", "/repo")
+    src = open(os.path.join(root, "buidl", "test", "test_psbt.py")).read()
+    body = src[src.index("def test_p2sh_p2wpkh"):src.index("def test_update_p2wsh")]
+    wants = re.findall(r'want = "([0-9a-f]+)"', body)
+    try:
+        p_ = PSBT.parse(BytesIO(bytes.fromhex(wants[1])), network="testnet")
+    except ValueError as e:
+        return True, "PSBT.parse of the updated p2sh-p2wpkh PSBT raises: %s" % str(e)[:70]
+    return p_.serialize().hex() != wants[1], "updated p2sh-p2wpkh PSBT parses and re-serialises identically"
+
+def F31():
+    """key-path spend: a valid 64-byte signature with 00 / 00 00 appended"""
+    from buidl.ecc import PrivateKey
+    from buidl.script import P2TRScriptPubKey
+    from buidl.tx import Tx, TxIn, TxOut
+    from buidl.witness import Witness
+    priv = PrivateKey(12345)
+    spk = P2TRScriptPubKey(priv.point.tweaked_key(b""))
+    tx_in = TxIn(b"\x11" * 32, 0)
+    tx_in._value = 100000
+    tx_in._script_pubkey = spk
+    tx = Tx(2, [tx_in], [TxOut(90000, spk)], 0, network="testnet", segwit=True)
+    sig = priv.tweaked_key(b"").sign_schnorr(tx.sig_hash(0, 0)).serialize()
+    res = {}
+    for label, w in (("64", sig), ("64+00", sig + b"\x00"), ("64+0000", sig + b"\x00\x00")):
+        tx.tx_ins[0].witness = Witness([w])
+        try:
+            res[label] = tx.verify_input(0)
+        except Exception as e:
+            res[label] = type(e).__name__
+    return res.get("64+00") is True or res.get("64+0000") is True, "key-path verify_input by signature encoding: %s" % res
+
 def K1():
     from buidl.op import op_2rot
     st = [b"1", b"2", b"3", b"4", b"5", b"6"]
